@@ -738,4 +738,115 @@ theorem upperEsc_printed_body (hup : UpFacts p) (hpath : PathIdem)
 
 end
 
+/-! ## the path hypotheses hold (`Lemmas/Normpath.lean`) -/
+
+theorem absPath_of_AbsPath {p : Str} (h : AbsPath p) : Normpath.absPath p = true := by
+  rcases h with rfl | ⟨q, rfl⟩
+  · rfl
+  · simp [Normpath.absPath, startsWith_cons_cons, startsWith_nil]
+
+theorem upperEsc_renderSegs (v : List Str × Bool) (m : Bool) (h : ∀ x ∈ v.1, UpperEsc x) :
+    UpperEsc (Normpath.renderSegs v m) := by
+  have ss : Sep '/' := ⟨by decide, by decide⟩
+  unfold Normpath.renderSegs
+  split
+  · cases m
+    · exact upperEsc_nil
+    · exact (upperEsc_cons_sep ss _).2 upperEsc_nil
+  · have hj : UpperEsc (join ['/'] v.1) := (upperEsc_join ss v.1).2 h
+    cases v.2 with
+    | true =>
+      simp only [if_true]
+      have e : '/' :: join ['/'] v.1 ++ ['/'] = '/' :: (join ['/'] v.1 ++ '/' :: []) := by simp
+      rw [e]
+      exact (upperEsc_cons_sep ss _).2 ((upperEsc_append_sep ss _ _).2 ⟨hj, upperEsc_nil⟩)
+    | false =>
+      simp only [Bool.false_eq_true, if_false, List.append_nil]
+      exact (upperEsc_cons_sep ss _).2 hj
+
+/-- the three path facts the whole-function idempotence needs -/
+theorem pathIdem : PathIdem where
+  idem := fun p m m' h => Normpath.canonPath_idem p m m' (absPath_of_AbsPath h)
+  unq := fun p m h => Normpath.unquotePath_canonPath p m (absPath_of_AbsPath h)
+  upper := by
+    intro p m h hu
+    rw [Normpath.canonPath_render p m (absPath_of_AbsPath h)]
+    apply upperEsc_renderSegs
+    intro x hx
+    have hx' := Normpath.segView_subset _ x hx
+    have hup : UpperEsc (unquotePath p) := upperEsc_safelyUnquote _ (by decide) hu
+    exact (upperEsc_join (sep := '/') ⟨by decide, by decide⟩ (splitOn (unquotePath p) '/')).1
+      (by rw [join_splitOn]; exact hup) x hx'
+
+section
+variable {puny : Str → Str} (hpc : PunyClean puny) (sf : Bool) {S rest : Str} {p : Parsed}
+  (h : FromParse S rest p)
+include hpc h
+
+/-- **the cleaning pass is the identity on the printed result** (unquoted mode): no control
+character, no surrounding white space (hypothesis `hlast` on the last character), escapes
+already upper-case, a protocol `PROTOCOL_RE` recognises -/
+theorem cleanUrl_printed_id (hup : UpFacts p) (hpath : PathIdem)
+    (hS : (∀ c ∈ S, isAsciiAlpha c = true) ∧ S.length ≤ 64)
+    (hpct : ∀ h0, p.hostname = some h0 → '%' ∉ h0)
+    (hwf : WF (canonParts puny false sf p).scheme (canonParts puny false sf p).netloc
+      (canonParts puny false sf p).path (canonParts puny false sf p).query
+      ((canonParts puny false sf p).fragment.getD []))
+    (hnl : (canonParts puny false sf p).netloc ≠ [] ∨
+      inTable usesNetloc20 (canonParts puny false sf p).scheme = true)
+    (hlast : ∀ c, (urlunsplit (canonParts puny false sf p)).getLast? = some c → isSpace c = false)
+    (dp : Str) :
+    Canonicalize.cleanUrl (urlunsplit (canonParts puny false sf p)) dp =
+      urlunsplit (canonParts puny false sf p) := by
+  have heq := printed_eq hpc sf h hwf hnl
+  have hlow : ∀ c ∈ lower S, isAsciiAlpha c = true := by
+    intro c hc
+    simp only [Py.lower, List.mem_map] at hc
+    obtain ⟨d, hd, rfl⟩ := hc
+    exact isAsciiAlpha_lowerChar (hS.1 d hd)
+  have hsne : lower S ≠ [] := by
+    obtain ⟨⟨c, r, e, _⟩, _⟩ := h.shaped; rw [e]; simp [Py.lower]
+  -- no control character
+  have hctl : NoCtl (urlunsplit (canonParts puny false sf p)) := by
+    rw [heq]
+    apply NoCtl.append h.shaped.noCtl.lower
+    intro c hc
+    simp only [List.mem_cons, List.mem_append] at hc
+    rcases hc with rfl | rfl | rfl | hc | hc | hc | hc
+    · decide
+    · decide
+    · decide
+    · exact noCtl_netloc_new hpc false sf h c hc
+    · exact noCtl_path hpc false sf h c (by rw [← canonParts_path]; exact hc)
+    · rcases mem_queryPart hc with h1 | rfl
+      · exact noCtl_query hpc false sf h c h1
+      · decide
+    · rcases mem_fragPart hc with h1 | rfl
+      · exact noCtl_fragment hpc false sf h c h1
+      · decide
+  -- no surrounding white space
+  have hhead : ∀ c, (urlunsplit (canonParts puny false sf p)).head? = some c → isSpace c = false := by
+    intro c hc
+    rw [heq] at hc
+    cases hl : lower S with
+    | nil => exact absurd hl hsne
+    | cons d r =>
+      rw [hl] at hc
+      simp only [List.cons_append, List.head?_cons, Option.some.injEq] at hc
+      subst hc
+      exact alpha_not_space (hlow d (by rw [hl]; simp))
+  -- escapes are upper-case
+  have hup' : UpperEsc (urlunsplit (canonParts puny false sf p)) := by
+    rw [heq]
+    have ss : Sep '/' := ⟨by decide, by decide⟩
+    exact (upperEsc_append_sep ⟨by decide, by decide⟩ _ _).2
+      ⟨upperEsc_of_no_pct (alpha_no_pct hlow),
+        (upperEsc_cons_sep ss _).2 ((upperEsc_cons_sep ss _).2
+          (upperEsc_printed_body hpc sf h hup hpath hpct))⟩
+  unfold Canonicalize.cleanUrl
+  rw [stripControl_id hctl, strip_id _ hhead hlast, upperQuoted_of_upperEsc hup', heq]
+  exact ensureProtocol_id (lower S) _ dp hsne hlow (by rw [lower_length]; exact hS.2)
+
+end
+
 end Ural.CanonIdem
